@@ -140,6 +140,17 @@ Theorem C22_incremental_equals_batch_refuted :
 Proof. exists w_opts, w_batches. eexists. eexists. repeat split; vm_compute; reflexivity. Qed.
 Print Assumptions C22_incremental_equals_batch_refuted.
 
+(** the converse direction (found by the thorough tier): no promotion while collecting, but the final
+    ranking promotes f33.md, which the incremental truncation had already dropped *)
+Definition w_batches2 : list (list file) :=
+  [[w_file 1 1047 0 8]; [w_file 14 1247 0 5; w_file 22 1007 0 2; w_file 27 989 0 3; w_file 33 1027 3 2]; [w_file 37 1368 0 2]].
+Definition w_opts2 : topts := {| o_doc := 4; o_match := 10; o_chunk := false |}.
+Theorem C22_incremental_equals_batch_refuted_converse :
+  exists r1 r2, collect w_opts2 w_batches2 = Ok r1 /\ batch w_opts2 w_batches2 = Ok r2 /\
+                map f_id r1 = [37;14;1]%N /\ map f_id r2 = [37;14;33;1]%N.
+Proof. eexists. eexists. repeat split; vm_compute; reflexivity. Qed.
+Print Assumptions C22_incremental_equals_batch_refuted_converse.
+
 (** what does hold for the collecting path: a single chunk, or no display limit, gives the batch result *)
 Theorem C22_collect_single_or_unlimited : forall o bs,
   (exists b, bs = [b]) \/ has_limits o = false -> collect o bs = batch o bs.
